@@ -205,7 +205,7 @@ def plan(ctx):
     r = ctx.rng
     cases = []
     if ctx.quick:
-        sizes = [0, 1, 2, 3, 4, 5, 7, 8, 9, 16, 17, 31, 33, 64, 100, 150, 257, 300, 400, 700]
+        sizes = [0, 1, 2, 3, 4, 5, 7, 8, 9, 16, 17, 31, 33, 64, 100, 150, 257, 300, 400, 700, 1600, 2700]
     else:
         sizes = [0, 1, 2, 3, 4, 5, 6, 7, 8, 9, 15, 16, 17, 31, 32, 33, 63, 64, 65, 100, 127, 128, 129, 255, 256, 257, 300, 511, 513,
                  700, 1000, 1023, 1025, 1500, 2047, 2049, 3000, 4097, 5000] + [r.range(0, 600) for _ in range(60)]
@@ -215,6 +215,8 @@ def plan(ctx):
         c = Case()
         c.n = n
         c.style = styles[i % 4] if i < 8 else r.choice(styles)
+        if n >= 1500 and ctx.quick:
+            c.style = "gnu" if n % 200 == 0 else "both"     # large tables: the bloom filter has more than one word
         c.kind = kinds[i % 5] if ctx.quick else r.choice(kinds)
         c.flavour = "bucket" if (n >= 8 and i % 4 == 1) else ("plain" if i % 7 == 6 else "mixed")
         c.nver = 0
